@@ -625,6 +625,122 @@ def calibration_ctor_unit(u: Unit):
         u.cover(f"calibration.ctor.cover[{seeds}]", ps, lambda p: p.kind == "return")
 
 
+
+# ---- Calibration.run_calibration in a HISTORY: an earlier run, the declarations changed through the public setters, the run under check ----
+RUNCAL_REPLAY = lambda w: {"code": """
+import numpy as np, tempfile, pathlib, verif_probes as VP
+import pyxel.calibration.calibration as CM
+from pyxel.calibration import Calibration, Algorithm
+from pyxel.observation import ParameterValues
+from pyxel.pipelines import DetectionPipeline, ModelFunction, Processor
+from pyxel.exposure import Readout
+d = pathlib.Path(tempfile.mkdtemp())
+np.save(d / 't.npy', np.full((3, 4), 5.0))
+seen = []
+class Spy(CM.ArchipelagoDataTree):
+    def __init__(self, *a, problem=None, **k):
+        seen.append(problem)
+        raise RuntimeError('stop here')                 # the problem handed to the archipelago is what is inspected
+CM.ArchipelagoDataTree = Spy
+pipe = DetectionPipeline(photon_collection=[ModelFunction(func='verif_probes.set_image', name='img', arguments={'level': 0.0, 'gain': 1.0})])
+proc = Processor(detector=VP.detector(), pipeline=pipe)
+first = [ParameterValues(key='pipeline.photon_collection.img.arguments.level', values='_', boundaries=(0.0, 100.0))]
+second = [ParameterValues(key='pipeline.photon_collection.img.arguments.gain', values='_', logarithmic=True, boundaries=(1.0, 10.0)),
+          ParameterValues(key='pipeline.photon_collection.img.arguments.level', values='_', boundaries=(-5.0, 5.0))]
+cal = Calibration(target_data_path=[str(d / 't.npy')], fitness_function=__import__('pyxel.pipelines', fromlist=['FitnessFunction']).FitnessFunction(func='pyxel.calibration.fitness.sum_of_abs_residuals'),
+                  algorithm=Algorithm(type='sade', generations=1, population_size=4), parameters=first, readout=Readout(), result_type='image', num_islands=1, num_evolutions=1, pygmo_seed=1, pipeline_seed=1,
+                  target_fit_range=(0, 3, 0, 4), result_fit_range=(0, 3, 0, 4))
+VIOLATED, DETAIL = False, 'every run optimises the problem of the declarations in force when it starts'
+for params in (first, second, first):
+    cal.parameters = params
+    try:
+        cal.run_calibration(processor=proc, output_dir=None, with_inherited_coords=True, with_progress_bar=False)
+    except RuntimeError:
+        pass
+    prob = seen[-1]
+    lo, hi = prob.get_bounds()
+    want_lo = [(np.log10(p.boundaries[0]) if p.logarithmic else p.boundaries[0]) for p in params]
+    if len(lo) != len(params) or not np.allclose(lo, want_lo) or [v.key for v in prob._variables] != [p.key for p in params]:
+        VIOLATED, DETAIL = True, f'declared {[p.key.split(".")[-1] for p in params]} with lower bounds {want_lo}: the problem handed to the optimiser has {[v.key.split(".")[-1] for v in prob._variables]} with lower bounds {list(lo)}'; break
+""", "expect": "run_calibration builds the fitting problem from the current declarations on every call"}
+
+
+def run_calibration_history_unit(u: Unit):
+    """Calibration.run_calibration after an EARLIER run_calibration of the same object with the same processor, the parameter declarations
+    having been replaced in between through the public setter: the problem the archipelago receives is a ModelFittingDataTree constructed
+    in THIS call from the declarations, readout, result type, fitness function, ranges, weights and seeds in force NOW (nothing kept from
+    the earlier call). Constructors of the problem / archipelago and the evolution are callee contracts that record what they receive."""
+    fi = u.fn(f"{CAL}::Calibration.run_calibration")
+    cci = u.cls(f"{CAL}::Calibration")
+    u.fn(f"{CAL}::Calibration.__init__")
+    cfg = Cfg("real")
+    boundary.install(cfg, prefixes=("xarray.", "dask.", "tqdm.", "pandas.", "pygmo.", "numpy.random."))
+    cfg.contracts[f"{CAL}::to_path_list"] = Contract(f"{CAL}::to_path_list", lambda ex, args, kwargs, fr: VOpaque("xr", None, {"label": "paths", "args": list(args), "truthy": True}), "paths resolved (C20 loaders)")
+    cfg.contracts["pyxel/pipelines/processor.py::get_result_id"] = Contract("pyxel/pipelines/processor.py::get_result_id", lambda ex, args, kwargs, fr: VOpaque("xr", None, {"label": "result_id", "args": list(args)}), "result id")
+    cfg.lib_overrides["repo:pyxel.set_options"] = lambda ex, f, args, kwargs, fr: NONE
+    for q in ("pyxel/options.py::set_options", "pyxel/__init__.py::set_options"):
+        cfg.contracts[q] = Contract(q, lambda ex, args, kwargs, fr: NONE, "global option (working directory)")
+    rec = {}
+
+    def ctor(kind):
+        def apply(ex, args, kwargs, fr):
+            me = args[0]
+            ex.st.cell(me).fields["sim_output"] = VStr("image")
+            rec.setdefault(kind, []).append((me, dict(kwargs), len(rec.get("marks", []))))
+            return NONE
+        return apply
+    cfg.contracts[f"{FD}::ModelFittingDataTree.__init__"] = Contract(f"{FD}::ModelFittingDataTree.__init__", ctor("problem"), "C10 / C11 units init, bounds.layout")
+    cfg.contracts[f"{AD}::ArchipelagoDataTree.__init__"] = Contract(f"{AD}::ArchipelagoDataTree.__init__", ctor("archipelago"), "calib.archipelago_ctor")
+    cfg.contracts[f"{AD}::ArchipelagoDataTree.run_evolve"] = Contract(f"{AD}::ArchipelagoDataTree.run_evolve", lambda ex, args, kwargs, fr: VOpaque("xr", ex.st.fresh_int("tree"), {"label": "result"}), "run_evolve")
+    for q in ("pyxel/calibration/util.py::to_fit_range", "pyxel/calibration/util.py::FitRange3D.from_sequence"):
+        cfg.contracts[q] = Contract(q, lambda ex, args, kwargs, fr, q=q: VOpaque("xr", ex.st.fresh_int("range"), {"label": q.split("::")[1], "args": list(args)}), "C11.ranges.from_sequence")
+    for q in ("pyxel/calibration/user_defined.py::DaskIsland.__init__", "pyxel/calibration/user_defined.py::DaskBFE.__init__"):
+        try:
+            u.world.function(q)
+            cfg.contracts[q] = Contract(q, lambda ex, args, kwargs, fr: NONE, "helper objects")
+        except Exception:
+            pass
+
+    def setup(ex):
+        rec.clear()
+        st = ex.st
+        o = lambda l: VOpaque("xr", None, {"label": l, "truthy": True})
+        h = ex.hold = {k: o(k) for k in ("fitness_function", "algorithm", "parameters", "new_parameters", "target_data_path", "readout", "weights", "processor")}
+        fr0 = Frame(None, cci.module)
+        cal = ex.instantiate(cci, [], {"target_data_path": h["target_data_path"], "fitness_function": h["fitness_function"], "algorithm": h["algorithm"], "parameters": h["parameters"],
+                                        "readout": h["readout"], "num_islands": VInt(2), "num_evolutions": VInt(2), "num_best_decisions": VInt(0), "topology": VStr("ring"), "weights": h["weights"],
+                                        "result_fit_range": NONE, "target_fit_range": VTuple([VInt(0), VInt(2), VInt(0), VInt(3)]), "pygmo_seed": VInt(5), "pipeline_seed": VInt(7)}, fr0)
+        ex.me = cal
+        kw = {"processor": h["processor"], "output_dir": NONE, "with_inherited_coords": VBool(True), "with_progress_bar": VBool(False)}
+        h["failed"] = None
+        try:
+            ex.call(ex.getattr(cal, "run_calibration", fr0), [], dict(kw), fr0)          # the earlier run
+            rec.setdefault("marks", []).append("declarations replaced")
+            ex.setattr(cal, "parameters", h["new_parameters"], fr0)                       # through the public setter
+        except PyExc as pe:
+            h["failed"] = ex.exc_class_name(pe.val)
+        return [cal], kw
+    ps = u.paths(fi, setup, cfg, label="Calibration.run_calibration[after an earlier run and new declarations]")
+    for p in ps:
+        h = p.ex.hold
+        if p.kind != "return" or h["failed"]:
+            u.oblige(p, "run_calibration.history.no_raise", False, {"exc": p.exc_name() or h["failed"]}, RUNCAL_REPLAY)
+            continue
+        arch, probs = rec.get("archipelago", []), rec.get("problem", [])
+        ok = len(arch) == 2 and len(probs) >= 1
+        last_prob = arch[-1][1].get("problem") if ok else None
+        mine = [q for q in probs if isinstance(last_prob, VRef) and q[0].addr == last_prob.addr] if ok else []
+        u.oblige(p, "run_calibration.history.problem_built_in_this_call", bool(ok and len(mine) == 1 and mine[0][2] == 1), {"problems constructed": len(probs), "archipelagos": len(arch)}, RUNCAL_REPLAY)
+        if not (ok and len(mine) == 1):
+            continue
+        kw = mine[0][1]
+        f = p.st.cell(p.ex.me).fields
+        same = (kw.get("variables") is h["new_parameters"] and kw.get("processor") is h["processor"] and kw.get("readout") is h["readout"] and kw.get("fitness_func") is h["fitness_function"]
+                and kw.get("weights") is h["weights"] and kw.get("target_filenames") is f.get("_target_data_path", f.get("target_data_path")))
+        u.oblige(p, "run_calibration.history.problem_from_the_current_declarations", bool(same), {"variables": str(kw.get("variables"))}, RUNCAL_REPLAY)
+    u.cover("run_calibration.history.cover", ps, lambda p: p.kind == "return")
+
+
 BUILD_REPLAY = lambda w: {"code": """
 import sys, types
 import numpy as np
